@@ -89,6 +89,31 @@ func bases() []scenario {
 		add("transfer", cl, false)
 		add("transfer", cl, true)
 	}
+	// the re-observation request arrives when the chain depth is reached and level x 16 s have passed, but (on
+	// mainnet) before the 205-interval floor; and once more after it
+	for _, cl := range []int{0, 1, 2, 100, 204} {
+		for _, mainnet := range []bool{true, false} {
+			m := mkMsg("transfer", cl)
+			early := cl*16 + 1
+			st := []alphh.Step{
+				{Op: "emit", Msg: &m, Block: 1, Height: 11},
+				{Op: "evtick"},
+				{Op: "htick"},
+				{Op: "height+", Height: int32(cl)},
+				{Op: "clock", Sec: early},
+				{Op: "reobs", Tx: m.Tx},
+				{Op: "htick"},
+				{Op: "clock", Sec: 205*16 + 1 - early},
+				{Op: "reobs", Tx: m.Tx},
+				{Op: "htick"},
+			}
+			net := "testnet"
+			if mainnet {
+				net = "mainnet"
+			}
+			out = append(out, scenario{Name: fmt.Sprintf("transfer/cl%d/%s/re-observed-before-the-floor", cl, net), Mainnet: mainnet, Steps: st})
+		}
+	}
 	for _, k := range []string{"attest-matching", "attest-mismatching", "attest-symbol-interior-nul", "attest-name-interior-nul", "foreign-sender", "lookalike-other-contract", "other-contract-index1"} {
 		add(k, 2, false)
 		add(k, 2, true)
